@@ -341,6 +341,74 @@ func runC11(c *eng.Ctx) {
 			}
 		}
 	}
+
+	// ---------------------------------------------------------------- REG-locations
+	// registering a replica always records its server in the volume's location list; unregistering removes it, forgets
+	// its read-only / oversized marks, re-evaluates writability and drops the volume when no replica is left
+	if fn := c.NeedFunc("weed/topology", "(*VolumeLayout).RegisterVolume"); fn != nil {
+		sets := eng.Find(fn, func(in ssa.Instruction) bool {
+			call, ok := in.(*ssa.Call)
+			return ok && eng.CalleeIs(call, "topology.VolumeLocationList).Set") && eng.IsParamLike(call.Call.Args[1], "dn")
+		})
+		okSet := len(sets) == 1
+		if okSet {
+			if hit, _ := eng.Search(eng.Entry(fn), eng.IsReturn, eng.SearchOpt{Barrier: eng.AnyOf(sets)}); hit != nil {
+				okSet = false
+			}
+		}
+		c.Ob("REG-locations", eng.FuncName(fn)+" records-the-server", okSet, fn.Pos(), "every registration adds the reporting server to the volume's location list")
+		// a read-only or missing replica takes the volume out of the writable set
+		ro := eng.PassEdges(fn, eng.BoolVal(true, func(v ssa.Value) bool { return eng.IsField(v, "VolumeInfo.ReadOnly") }))
+		okRO := len(ro) > 0
+		for _, st := range startsOf(ro) {
+			if hit, _ := eng.Search(st, eng.IsReturn, eng.SearchOpt{Barrier: eng.PlainCallTo("topology.VolumeLayout).removeFromWritable")}); hit != nil {
+				okRO = false
+			}
+		}
+		c.Ob("REG-locations", eng.FuncName(fn)+" read-only-replica-unwritable", okRO, fn.Pos(), "a registration that sees a read-only replica takes the volume out of the writable set")
+	}
+	if fn := c.NeedFunc("weed/topology", "(*VolumeLayout).UnRegisterVolume"); fn != nil {
+		removed := eng.PassEdges(fn, eng.BoolCall(true, "topology.VolumeLocationList).Remove"))
+		for _, step := range []struct{ name, callee, what string }{
+			{"forgets-read-only-mark", "topology.volumesBinaryState).Remove", "the read-only / oversized marks of the removed replica are dropped"},
+			{"re-evaluates-writability", "topology.VolumeLayout).ensureCorrectWritables", "writability is re-evaluated"},
+		} {
+			ok := len(removed) > 0
+			for _, st := range startsOf(removed) {
+				if hit, _ := eng.Search(st, eng.IsReturn, eng.SearchOpt{Barrier: eng.PlainCallTo(step.callee)}); hit != nil {
+					ok = false
+				}
+			}
+			c.Ob("REG-locations", eng.FuncName(fn)+" "+step.name, ok, fn.Pos(), "after a replica was removed from the location list "+step.what)
+		}
+		// the volume is forgotten exactly when no replica is left
+		empty := eng.PassEdges(fn, func(cond ssa.Value) (bool, bool) {
+			b, ok := cond.(*ssa.BinOp)
+			if !ok || !isZero(b.Y) || !eng.MentionsCall(b.X, "topology.VolumeLocationList).Length") {
+				return false, false
+			}
+			switch b.Op {
+			case token.EQL, token.LEQ:
+				return true, true
+			case token.NEQ, token.GTR:
+				return true, false
+			}
+			return false, false
+		})
+		dels := eng.Find(fn, func(in ssa.Instruction) bool {
+			call, ok := in.(*ssa.Call)
+			return ok && eng.CalleeIs(call, "builtin.delete") && eng.IsField(call.Call.Args[0], "VolumeLayout.vid2location")
+		})
+		c.Guard("REG-locations", "forgotten-only-when-empty", fn, eng.Entry(fn), dels, empty, "the volume is dropped from the lookup table only when its last replica was removed")
+		okDel := len(empty) > 0 && len(dels) == 1
+		for _, st := range startsOf(empty) {
+			if hit, _ := eng.Search(st, eng.IsReturn, eng.SearchOpt{Barrier: eng.AnyOf(dels)}); hit != nil {
+				okDel = false
+			}
+		}
+		c.Ob("REG-locations", eng.FuncName(fn)+" forgotten-when-empty", okDel, fn.Pos(), "a volume without replicas is dropped from the lookup table (lookups answer not found instead of an empty list)")
+	}
+	c.Expect("REG-locations", 6)
 }
 
 func pathNote(P *eng.Prog, fn *ssa.Function, hit ssa.Instruction, path []int) string {
